@@ -133,6 +133,59 @@ func rulePhaseProgress(c *RC) *RuleResult {
 	// whether the table's step is due before it returns — the stored payload may be the one that completes the quorum,
 	// and for a single validator the node's own proposal is the whole quorum. Same excuses as above, plus "a view change
 	// was asked for instead" and "the block of the height is out" (nothing is due any more)
+	// A proposal that is stored, complete and verified is followed by the preparations check, whoever the node is: a
+	// primary that lost its state gets its own proposal back in a recovery message, does not answer it — and must still
+	// look whether the responses it already holds make the quorum, nothing else will (their duplicates are dropped).
+	if h := c.handlers()["PrepareRequestType"]; h != nil {
+		var prep *FuncInfo
+		for _, ph := range phases {
+			if ph.name == "preparations" {
+				prep = ph.fn
+			}
+		}
+		ver := c.topVerifiers()
+		at := fAllTx().Atom
+		if prep != nil {
+			r.Sites++
+			bad := ""
+			for _, e := range c.exitsOf(h) {
+				kl := e.Killed["ctx.PreparationPayloads"]
+				if kl&(KillNNOwn|KillNNSender|KillNNPrimary|KillNNOther) == 0 {
+					continue
+				}
+				if v, known := e.F.value(at); !known || !v {
+					continue
+				}
+				if isWatchOnlyState(e) || e.Events["fn:"+prep.Name] || e.Events["fn:"+c.phaseRoot(prep).Name] {
+					continue
+				}
+				skip := false
+				for _, f := range ver {
+					if e.Events["fn:"+f.Name+"=false"] {
+						skip = true // the block failed verification: a ChangeView is the answer
+					}
+				}
+				for _, f := range c.senderOf("ChangeViewType") {
+					if e.Events["fn:"+f.Name] {
+						skip = true
+					}
+				}
+				for _, ini := range c.initialisers() {
+					if e.Events["fn:"+ini.Name] {
+						skip = true
+					}
+				}
+				if !skip {
+					bad = strings.Join(e.Trail, "; ")
+				}
+			}
+			if bad == "" {
+				r.ok(h.Name + ": a stored, complete proposal is followed by the preparations check on every path (watch-only nodes and failed verification excepted)")
+			} else {
+				r.fail(h.Name+"/stored-proposal-unchecked", c.Prog.Pos(h.Decl), fmt.Sprintf("%s stores the proposal with all transactions present and leaves without the preparations check on path {%s}: a primary that restarted and gets its own proposal back from a recovery message holds the responses already (their duplicates are dropped), so nothing ever makes it commit", h.Name, bad))
+			}
+		}
+	}
 	tableOf := map[string]string{"preparations": "ctx.PreparationPayloads", "pre-commits": "ctx.PreCommitPayloads", "commits": "ctx.CommitPayloads", "change views": "ctx.ChangeViewPayloads"}
 	cvSenders := c.senderOf("ChangeViewType")
 	// verdict of one exit: "" = the check was reached or there is an accepted reason not to; otherwise the path
